@@ -2,8 +2,11 @@
 
 Decides: own-line registration, single writer + filter on the error log, filter
 semantics, per-line over range precedence, no directive lost while line ranges
-merge, directive syntax, and that a trailing directive registers only its own
-line (D16 = known finding).  Does NOT decide which line the VM blames.
+merge, directive syntax, that a trailing directive registers only its own
+line (D16 = known finding), that filter_error looks up the line the error is
+reported at (after its own set_line adjustment), and that the tokenizer side
+(_process_comments/_process_comment) hands every directive of every comment
+token to the visitor.  Does NOT decide which line the VM blames.
 """
 import ast
 import itertools
@@ -27,13 +30,31 @@ EXPLANATION = (
     "entries win over ranges; R3.5 every raw comment seeds a base LineRange group, groups are extended "
     "before deletion, base ranges are never skipped, every comment is dispatched; R3.6 regex ASTs of "
     "_DIRECTIVE_RE / IGNORE_RE and the disable/enable wiring; R3.7 a trailing directive registers only its "
-    "own line (violated by design: D16).  Not decided: which line the VM attributes an error to, the "
-    "line-adjustment tables, the tokenizer.")
+    "own line (violated by design: D16); R3.8 nothing is logged before the filter exists (known finding); "
+    "R3.9 def-use over filter_error: every membership test on a _LineSet table of the Director is keyed by "
+    "a value read from error.line after the last statement that can move the error (methods of "
+    "errors.Error that store _line, derived from errors.py) on every path - a key computed before "
+    "error.set_line(end) looks up the pre-adjustment line; R3.10 tokenizer side: _process_comments hands "
+    "every COMMENT token (no other guard) with token.line/start to _process_comment and files the result "
+    "under the token's row in the mapping it returns; _process_comment loops over all finditer matches of "
+    "_DIRECTIVE_RE in line[col:], leaves the loop only by continue/fall-through (or the skip-file raise), "
+    "yields _StructuredComment(row, group 1, group 2, open_ended) with open_ended = 'only blanks before "
+    "the comment', and every path that does not yield has `open_ended` and `tool == \"type\"` in its path "
+    "condition (only a type: comment nested in a stand-alone comment may be dropped); parse_src/"
+    "visit_src_tree pass that mapping to _ParseVisitor, and run_program parses the text it compiles.  "
+    "Blind spots: which line the VM attributes an error to, the values in the line-adjustment tables "
+    "(return_lines, function ranges), whether is_nested is computed correctly (dropping *every* type "
+    "comment of a stand-alone comment would not break C03), tokenize itself.")
 ASSUMPTIONS = [
     "the VM reports errors through ctx.errorlog (VmErrorLog) at the line CPython's line table gives "
     "the opcode; line attribution is out of scope",
     "_LineSet.set_line is only given bool memberships (so `is not None` means 'entry present')",
     "Python semantics of re.match/finditer and OrderedDict; tokenize delivers every comment token",
+    "R3.9: the only ways to move an existing error are the methods of errors.Error that store self._line "
+    "and direct stores to <err>._line/.line; a call that merely receives the error as an argument is "
+    "'unsure' (analysis error if it separates the key from its test), not a violation",
+    "R3.10: the accepted spellings of 'stand-alone' (open_ended) are an enumerated list; an unknown "
+    "spelling is an analysis error; one comment token per physical line (so extend/+=/= list(..) agree)",
 ]
 
 DIR = "pytype/directors/directors.py"
@@ -277,16 +298,20 @@ def _writers(mod, uses):
                 for k, q, n in uses if k not in ("read", "escape"))
 
 
-def _filter_test(t, p, err):
-  """Does `t` with polarity `p` imply that the filter is absent or accepted `err`?"""
-  call, none, some = f"self._filter({err})", ("self._filter is None", "not self._filter"), (
-      "self._filter is not None", "self._filter")
+def _filter_test(t, p, err, rec=()):
+  """Does `t` with polarity `p` imply that the filter is absent or accepted `err`?
+
+  `rec`: flags that are only set while ErrorLog.checkpoint() is recording; what is appended then is
+  cut off again by CheckPoint.revert (checked separately), so it need not pass the filter.
+  """
+  call, none, some = f"self._filter({err})", ("self._filter is None", "not self._filter") + tuple(rec), (
+      "self._filter is not None", "self._filter") + tuple(f"not {r}" for r in rec)
   ops = [src(v) for v in getattr(t, "values", [t])]
   if not p:   # early exit `if <filter present> and not filter(err): return`
     return f"not {call}" in ops and all(o == f"not {call}" or o in some for o in ops) and not isinstance(
         getattr(t, "op", None), ast.Or)
   if isinstance(t, ast.BoolOp) and isinstance(t.op, ast.And):
-    return any(_filter_test(v, True, err) for v in t.values)
+    return any(_filter_test(v, True, err, rec) for v in t.values)
   return call in ops and all(o == call or o in none for o in ops)
 
 
@@ -321,8 +346,15 @@ def r3_2(ctx):
   err = _params(add)[1]
   apps = [c for c in calls_in(add) if dotted(c.func) == "self._errors.append"]
   g = [_gtxt(mod, c) for c in apps]
+  # attributes checkpoint() sets around its yield; they only count if the recorded errors are always cut off
+  # again (revert in a finally clause; CheckPoint:truncate-only above)
+  cpf = mod.func("ErrorLog.checkpoint")
+  reverts = any(isinstance(c.func, ast.Attribute) and c.func.attr == "revert" for t in walk_no_nested(cpf)
+                if isinstance(t, ast.Try) for s in t.finalbody for c in calls_in(s))
+  rec = sorted({dotted(t) for n in walk_no_nested(cpf) if isinstance(n, ast.Assign) for t in n.targets
+                if (dotted(t) or "").startswith("self.")}) if reverts else []
   ok = bool(apps) and err not in _stored(add) and all(
-      [src(a) for a in c.args] == [err] and any(_filter_test(t, p, err) for t, p in _guards(mod, c))
+      [src(a) for a in c.args] == [err] and any(_filter_test(t, p, err, rec) for t, p in _guards(mod, c))
       for c in apps)
   ctx.check(ok, "ErrorLog._add:filter-guard", ERR, add.lineno, "append must be guarded by `self._filter is "
             f"None or self._filter({err})` for the appended error; guards={g}", {"guards": g})
